@@ -211,3 +211,43 @@ def all_paths_hit_flags(fn, start, hit_blocks, stop_blocks=None):
         for y in succs:
             work.append((y, key))
     return True, None
+
+
+def field_bool_switches(fn, field):
+    """switches that test a bool field (directly, through a copy, or negated): [(switch_bb, true_target, false_target)]"""
+    out = []
+    cands = {}
+    for (bb, st) in field_reads(fn, field):
+        if isinstance(st, dict) and st.get("switch"):
+            t = fn.blocks[bb]["term"]
+            zero = [b for v, b in t["targets"] if v == "0"]
+            if zero:
+                out.append((bb, t["otherwise"], zero[0]))
+            continue
+        cands[st["pl"]["l"]] = True
+    # propagate through copies and Not
+    changed = True
+    while changed:
+        changed = False
+        for i, st in fn.stmts():
+            if st["k"] != "assign" or st["pl"]["p"] or st["pl"]["l"] in cands:
+                continue
+            rv = st["rv"]
+            if rv["k"] == "use" and rv["op"]["k"] in ("copy", "move") and not rv["op"]["pl"]["p"] and rv["op"]["pl"]["l"] in cands:
+                cands[st["pl"]["l"]] = cands[rv["op"]["pl"]["l"]]
+                changed = True
+            elif rv["k"] == "unop" and rv["op"] == "Not" and rv["o"]["k"] in ("copy", "move") and not rv["o"]["pl"]["p"] and rv["o"]["pl"]["l"] in cands:
+                cands[st["pl"]["l"]] = not cands[rv["o"]["pl"]["l"]]
+                changed = True
+    for sw in sorted(fn.reach):
+        t = fn.blocks[sw]["term"]
+        if t["k"] == "switch" and t["discr"]["k"] in ("copy", "move") and not t["discr"]["pl"]["p"] and t["discr"]["pl"]["l"] in cands \
+                and t["discr"].get("ty") == "bool":
+            zero = [b for v, b in t["targets"] if v == "0"]
+            if not zero:
+                continue
+            pos = cands[t["discr"]["pl"]["l"]]
+            tt, ft = (t["otherwise"], zero[0]) if pos else (zero[0], t["otherwise"])
+            if not any(o[0] == sw for o in out):
+                out.append((sw, tt, ft))
+    return out
